@@ -10,6 +10,7 @@ Definition jv_res (pid : Z) (r : res) : jv :=
   | RDenied => JC "AccessDenied" [JZ pid; JB (bs "nm")]
   | RRaw => JC "Raw" []
   | RVal => JC "Val" []
+  | RTimeout => JC "TimeoutExpired" [JZ pid; JB (bs "nm")]
   end.
 
 (* one fault: hand-written model, and what the contract demands (None = nothing) *)
@@ -18,6 +19,16 @@ Definition run_ladder (p : plat) (meth site : string) (e : err) (s : pstate) (pi
   JL [ jv_res pid (method_outcome p meth site c);
        (if err_ok p e then jopt (jv_res pid) (demanded p meth site c) else jnone);
        jopt (jv_res pid) (contract p meth site c) ].
+
+Definition run_pair (p : plat) (meth site1 site2 : string) (e1 e2 : err) (s : pstate) (pid : Z) : jv :=
+  let z := pid =? 0 in
+  JL [ jv_res pid (pair_outcome p meth site1 site2 e1 e2 s z);
+       (if err_ok p e1 && err_ok p e2 then jopt (jv_res pid) (pair_demanded p meth site1 site2 e1 e2 s z) else jnone) ].
+Definition run_retry (meth site : string) (k : Z) (then_ : option err) (s : pstate) (pid : Z) : jv :=
+  JL [ jv_res pid (retry_outcome meth site k then_ s (pid =? 0));
+       jopt (jv_res pid) (retry_demanded meth site k then_ s (pid =? 0)) ].
+Definition run_wait (p : plat) (w : wscen) (s : pstate) (pid : Z) : jv :=
+  JL [ jv_res pid (wait_outcome p w s); jv_res pid (wait_demanded p w s) ].
 
 Definition jv_fval (v : fval) : jv := match v with FZ z => JZ z | FNone => jnone end.
 Definition jv_fields (fs : list (string * fval)) : jv := JL (map (fun f => JL [jstr (fst f); jv_fval (snd f)]) fs).
@@ -83,4 +94,7 @@ Definition run_tables : jv :=
        jbool (forallb nic_ok nic_rows);
        JL (map (fun b => JL [jstr (sb_meth b); jstr (sb_site b); jstr (sb_code b)])
                (filter (fun b => negb (sblock_spec_ok b && sblock_model_ok b)) status_blocks));
-       jbool (forallb srow_ok status_rows && sblocks_complete status_rows ladder_blocks status_blocks) ].
+       jbool (forallb srow_ok status_rows && sblocks_complete status_rows ladder_blocks status_blocks);
+       JL (map (fun b => JL [jstr (pb_meth b); jstr (pb_site1 b)]) (filter (fun b => negb (pblock_ok b)) pair_blocks));
+       JL (map (fun r => JL [jstr (rr_meth r); JZ (rr_k r)]) (filter (fun r => negb (rrow_ok r)) retry_rows));
+       jbool (forallb wrow_ok wait_rows && wrows_complete wait_rows && pblocks_complete pair_blocks) ].
